@@ -185,6 +185,18 @@ Theorem C18_node_isolation : forall c h s e s' y,
     cancelled z (s_tree (p_sup s')) = cancelled z (s_tree (p_sup s)).
 Proof. intros c h s e s' y Hrun. apply isolation_step. exact (C18_node_groups_are_the_run_statements c h s Hrun). Qed.
 
+(* ... and over whole histories: while service y is present and nothing of it (nor the root runnable) has died, whatever the other
+   services do, any number of times and in any interleaving — fail, panic (captured), have their exits processed, get restarted after their
+   back-off, start children — and however the root runnable proceeds, y and everything below it stay exactly as they were: in particular
+   y's running instance is the same one: never cancelled, never started again *)
+Theorem C18_node_isolation_over_histories : forall c y h s s',
+  PInv node_tree s -> quiet y (s_tree (p_sup s)) -> find [y] (s_tree (p_sup s)) <> None -> Forall (foreign_static node_tree y) h -> node_run c h s = PRun s' ->
+  forall z, is_prefix [y] z = true ->
+    find z (s_tree (p_sup s')) = find z (s_tree (p_sup s)) /\
+    (forall k, In (z, k) (s_toks (p_sup s')) <-> In (z, k) (s_toks (p_sup s))) /\
+    cancelled z (s_tree (p_sup s')) = cancelled z (s_tree (p_sup s)).
+Proof. intros c y h. apply isolation_history. apply node_tree_ok. Qed.
+
 (* the exit of another service x is foreign to y as soon as x <> y: with one service per statement the two are never in one group *)
 Theorem C18_node_other_service_exit_is_foreign : forall s x y k, x <> y -> foreign node_tree s y (PSup (EProcDied [x] k)).
 Proof.
@@ -237,6 +249,19 @@ Example C18_node_example :
   starts_of m' [svid "p2p"%string] = 2%nat /\ starts_of m' [svid "processor"%string] = 1%nat /\ starts_of m' [] = 2%nat.
 Proof. vm_compute. repeat split; try reflexivity. eexists. repeat split; try reflexivity; discriminate. Qed.
 
+(* the hypotheses of C18_node_isolation_over_histories are satisfiable: after the tree has come up the processor is present and quiet, and
+   the whole failure-and-restart history of the Ethereum watcher is foreign to it *)
+Example C18_node_isolation_example :
+  let e := svid "ethwatch"%string in let p := svid "processor"%string in
+  let h := [PSup (EReturn [e] RErr); PSup (EProcDied [e] RErr); PSup EGC; PSup (EBackoff [e]); PSup (EProcSchedule [e]); PRoot false; PPanic [e; 7]] in
+  Forall (foreign_static node_tree p) h /\
+  exists s, sm_out (settle sup_done_ready_needs_exit node_tree all_flags 40 (sim_init 0)) = PRun s /\ find [p] (s_tree (p_sup s)) <> None /\
+            forallb (fun q => negb (wanted (n_state (snd q)))) (s_tree (p_sup s)) = true /\
+            exists s', node_run all_flags (firstn 5 h) s = PRun s' /\ running [e] (p_sup s') = 1%nat.
+Proof.
+  vm_compute. split; [repeat constructor; discriminate|]. eexists. split; [reflexivity|]. split; [discriminate|]. split; [reflexivity|]. eexists. split; reflexivity.
+Qed.
+
 Print Assumptions C18_at_most_one_instance.
 Print Assumptions C18_invariant.
 Print Assumptions C18_no_supervisor_panic.
@@ -260,6 +285,7 @@ Print Assumptions C18_node_service_exit_cancels_nobody_else.
 Print Assumptions C18_node_service_restarts.
 Print Assumptions C18_node_restart_condition.
 Print Assumptions C18_node_isolation.
+Print Assumptions C18_node_isolation_over_histories.
 Print Assumptions C18_node_other_service_exit_is_foreign.
 Print Assumptions C18_node_kill_needs_root_cancel.
 Print Assumptions C18_node_no_starts_after_kill.
